@@ -10,32 +10,62 @@ from harness.props import state_toy as T
 META = dict(
     technique="Coq theorems (invariant of the cache + undo log, preserved by every State operation; induction over the history) "
               "on a line-by-line model of state.py; the model's executable step function is run inside Coq (vm_compute) on the "
-              "same operation histories as the real State and compared result by result; from-scratch oracle on the implementation",
+              "same operation histories as the real State and compared result by result; from-scratch oracle on the implementation; "
+              "the fork rule of State.__setitem__ is recognised on every run (source shape + probe on a real State, fail closed)",
     level_text="For every value type, every well-formed graph, every history of get/set/put/revert/partial revert/clone/mode "
                "switch/precompute/clear on any number of states: a successful read is the from-scratch evaluation of the current "
                "independent values, a read fails (input error) iff that evaluation needs an unset independent value, reads are "
-               "transparent, states do not interfere. Proved for the code as it is under one extra clause (no un-forked assignment "
-               "while a fork is pending: finding F1, refuted with a witness) and without it for the code with the one-line repair.",
+               "transparent, states do not interfere. Proved in full for the code as it is (since 27ac519 an assignment made with "
+               "auto-fork off drops the pending fork): the only hypothesis on a history is the documented precondition of "
+               "per-individual reverts, and none at all for histories of full reverts.",
     level_note="Trusted: Coq kernel (no axioms: all theorems closed under the global context); the hand-written model's tie is the "
                "executed correspondence (toy graphs built as real LinkedVariables), not a translation; graph well-formedness is a "
                "hypothesis (C15) checked by vm_compute on every graph used; F_mix (row-wise node functions) is a hypothesis for "
-               "partial reverts; torch kernels, deepcopy, REF-mode aliasing under in-place mutation are outside the model.",
+               "partial reverts; torch kernels, deepcopy, REF-mode aliasing under in-place mutation are outside the model. "
+               "Former finding F1 (fork-mode-switch-stale-revert) is fixed by 27ac519; a tree whose __setitem__ keeps the fork on an "
+               "un-forked assignment is reported as a violation with the stale-read history as replay.",
     design_ref="DESIGN.md section 4 C01, section 6 F1",
 )
 
 OBLIGATIONS = [
-    "C01_never_stale", "C01_never_stale_partial", "C01_never_stale_repaired", "C01_fork_mode_switch_refuted",
-    "C01_unset_is_error", "C01_read_is_scratch", "C01_get_transparent", "C01_clone_isolated", "C01_clone_copies", "C01_examples",
+    "C01_never_stale", "C01_never_stale_full_reverts", "C01_unset_is_error", "C01_read_is_scratch", "C01_unforked_set_drops_fork",
+    "C01_get_transparent", "C01_clone_isolated", "C01_clone_copies", "C01_examples",
 ]
 
-# False = the model of the code as it is.  Flip to True once the repair of F1 (fixes/fork-mode-switch-stale-revert.diff) is in.
-FX = False
+# The model variant the theorems of Props/C01.v are about (State/StateNow.v): True = State.__setitem__ as it is since 27ac519
+# (an assignment made while auto_fork_type is None forgets _last_fork).
+CLAIMED_FX = True
+# The variant the tree under test really has; set by `settle_variant` from T.detect_setitem_variant() on every run.  The tie and
+# the discipline flags are computed for THIS variant, so that a tree that has lost the repair is reported through the stale
+# read it produces (signature F1_SIG, a violation) and not as a flood of model-vs-code mismatches.
+FX = CLAIMED_FX
 
 HEADER = ("From Coq Require Import ZArith List Bool.\nFrom Leaspy Require Import State.StateModel State.StateExec.\n"
           "Import ListNotations.\nOpen Scope Z_scope.\nOpen Scope nat_scope.\n")
 CASE_TYPE = "list nspec * list (xop * out xval * bool)"
 
 F1_SIG = "fork-mode-switch-stale-revert"
+
+
+def settle_variant(run: Run):
+    """Recognise the fork rule of the tree under test (fail closed) and set FX."""
+    global FX
+    fx, detail = T.detect_setitem_variant()
+    run.extra["setitem_variant"] = detail
+    if fx is None:
+        FX = CLAIMED_FX
+        run.broken("translate:State.__setitem__", "the fork rule of State.__setitem__ was not recognised (source shape and probes on a real "
+                   f"State must agree): {json.dumps(detail, default=str)}", kind="broken-translation")
+    else:
+        FX = fx
+        if fx != CLAIMED_FX:
+            run.broken("tie:State.__setitem__", "State.__setitem__ of the tree under test keeps _last_fork when a value is assigned with "
+                       "auto_fork_type=None (the rule before 27ac519): the theorems of Props/C01.v are about the rule that drops it and "
+                       "do not speak about this code.  The tie of this run is made against the model variant fx=false so that the "
+                       "search reports the stale read itself.", kind="broken-correspondence")
+    run.count("setitem_variant", {True: "drops the fork on an un-forked assignment (since 27ac519)",
+                                  False: "keeps the fork on an un-forked assignment (before 27ac519)", None: "not recognised"}[fx])
+    return fx
 
 
 def classify(run: Run, G, sess, what_prefix=""):
@@ -55,6 +85,11 @@ def classify(run: Run, G, sess, what_prefix=""):
         small = T.shrink(G, prefix, still) if len(prefix) <= 60 else prefix
         s3 = T.run_ops(G, small, fx=FX)
         m3 = next((m for m in s3.mismatches if "mask" not in m["taint"]), mm)
+        # end the replay with the stale read itself (the oracle found it by reading every node after the last operation)
+        if small[-1] != ["get", m3["state"], m3["node"]]:
+            s4 = T.run_ops(G, small + [["get", m3["state"], m3["node"]]], fx=FX)
+            if any(m["step"] == len(small) and m["node"] == m3["node"] for m in s4.mismatches):
+                small = small + [["get", m3["state"], m3["node"]]]
         run.count("oracle", sig)
         run.fail(sig, what_prefix + (
             "a revert after an assignment made with auto_fork_type=None restores a stale _last_fork: a cached derived value no longer "
@@ -92,8 +127,31 @@ def correspond(run: Run, name, sessions, metas):
     return bad
 
 
+def count_f1_shape(run: Run, s, acc):
+    """Histories of the shape of the former finding F1, measured on the real states: an assignment made with auto-fork off
+    while a fork is pending, then a revert on that state, then reads."""
+    kinds = {e["kind"] for e in s.f1_events}
+    if "unforked-set-over-pending-fork" in kinds:
+        acc["histories_with_unforked_assignment_over_pending_fork"] += 1
+    if "revert-after" in kinds:
+        acc["histories_with_revert_after_it"] += 1
+    if "read-after-revert" in kinds:
+        acc["histories_with_read_after_that_revert"] += 1
+    for e in s.f1_events:
+        if e["kind"] == "revert-after":
+            op = s.records[e["step"]][0][0]
+            out = e["out"]
+            key = f"{op} -> " + (out[0] if out[0] != "err" else "err:" + out[1])
+            acc["revert_outcomes"][key] = acc["revert_outcomes"].get(key, 0) + 1
+            run.count("revert_after_unforked_assignment_over_pending_fork", key)
+        elif e["kind"] == "read-after-revert":
+            acc["reads_after_that_revert"] += 1
+
+
 def toy_histories(run: Run, n_hist):
     sessions, metas = [], []
+    f1 = dict(histories_with_unforked_assignment_over_pending_fork=0, histories_with_revert_after_it=0,
+              histories_with_read_after_that_revert=0, reads_after_that_revert=0, revert_outcomes={})
     for h in range(n_hist):
         rng = run.rng("toy", h)
         malformed = rng.random() < 0.3
@@ -103,8 +161,9 @@ def toy_histories(run: Run, n_hist):
         except Exception as e:  # a generated graph leaspy refuses: not a case
             run.count("graph", f"refused:{type(e).__name__}")
             continue
-        s = T.gen_history(rng, G, malformed=malformed)
+        s = T.gen_history(rng, G, malformed=malformed, fx=FX)
         ops = [r[0] for r in s.records]
+        count_f1_shape(run, s, f1)
         sessions.append(s)
         metas.append(dict(stream="malformed" if malformed else "valid", case=h))
         run.case(("toy", json.dumps(G.to_json(), sort_keys=True), json.dumps(ops)), nontrivial=T.nontrivial(ops))
@@ -122,20 +181,33 @@ def toy_histories(run: Run, n_hist):
         classify(run, G, s)
         if h in (3, 11):
             run.sample(dict(kind="toy", graph=G.to_json(), history=[dict(op=r[0], out=r[1], disciplined=r[2]) for r in s.records[:25]]))
+    f1["note"] = ("legal since 27ac519: the revert must be refused with the input error 'no fork to revert from' (err:input) and every "
+                  "later read must be fresh; before 27ac519 the revert succeeded (done) and restored a stale undo log")
+    run.extra["f1_shaped_toy_histories"] = f1
+    if FX == CLAIMED_FX and f1["histories_with_read_after_that_revert"] < max(5, n_hist // 100):
+        run.broken("generator:f1-shape", f"the toy-history generator produced too few histories of the F1 shape: {f1}", kind="broken-correspondence")
     correspond(run, "toy", sessions, metas)
 
 
 def directed(run: Run):
-    """The witness of F1 on the real State, and the unit-test usage."""
+    """The history of the former finding F1 on the real State: c = a + b; fork REF; a=1, b=10; read c; a=2; auto_fork_type=None;
+    b=20; revert(); read c.  Since 27ac519: the revert is refused and the read is 22.  Before: the revert restores a=1 and the
+    cached c=11 although b=20 (fresh: 21) — reported by the oracle under F1_SIG (a violation: the finding is listed as fixed)."""
     G = T.F1_GRAPH
     G.build()
     s = T.run_ops(G, T.F1_OPS, fx=FX)
     run.case(("directed", "F1"), nontrivial=True)
-    last = s.records[-1][1]
-    run.extra["F1_witness_read"] = last
+    revert_out, last = s.records[-2][1], s.records[-1][1]
+    run.extra["F1_history_on_this_tree"] = dict(ops=T.F1_OPS, revert=revert_out, last_read=last,
+                                                since_27ac519=dict(revert=["err", "input"], last_read=["ok", 22]),
+                                                before_27ac519=dict(revert=["done"], last_read=["ok", 11], fresh=21))
+    n0 = len(run._fails)
     classify(run, G, s)
+    if FX != CLAIMED_FX and len(run._fails) == n0:
+        # fail closed: the tree was recognised as un-repaired but the history of F1 did not produce the stale read
+        run.broken("oracle:F1-history", f"un-repaired __setitem__ recognised but the F1 history read {last} after revert -> {revert_out}", kind="broken-correspondence")
     correspond(run, "f1", [s], [dict(stream="directed-F1", case=0)])
-    run.sample(dict(kind="F1 witness on the real State", ops=T.F1_OPS, last_read=last, fresh_value=21))
+    run.sample(dict(kind="history of the former finding F1 on the real State", ops=T.F1_OPS, revert=revert_out, last_read=last))
 
 
 def exhaustive_diamond(run: Run, max_len):
@@ -256,11 +328,14 @@ def main(run: Run):
     run.prove("C01", OBLIGATIONS)
     from harness.common import use_impl
     use_impl()
+    settle_variant(run)
     run.rule = ("random toy DAGs (2-9 nodes: hyper-parameters, population scalars, per-individual vectors, integer affine / "
                 "sum-over-individuals nodes with distinct coefficients, int64 or float64) built as real LinkedVariables; random "
                 "histories (1-40 ops, 1-3 states) from a grammar with a valid stream (70%: initial assignments, reads, sampler-shaped "
                 "put/read/revert steps, clones, mode switches, precompute) and a malformed stream (30%: unset reads, unknown names, "
-                "non-settable assignments, reverts without fork, bad indices), every result + a final is_variable_set sweep over all "
+                "non-settable assignments, reverts without fork, bad indices); 3.5% of the steps taken while a fork is pending have the "
+                "shape of the former finding F1 (auto-fork off, assignment, reads, full or partial revert, reads; counted in "
+                "f1_shaped_toy_histories); every result + a final is_variable_set sweep over all "
                 "nodes compared with the model inside Coq; from-scratch oracle after every operation. Non-trivial = the history has a "
                 "read after a second assignment to the same state, after a revert or after a clone; distinct by (graph, history).")
     run.explanation = ("The theorems quantify over all graphs/histories/value types of the model; the tie runs the model's own step "
@@ -271,7 +346,9 @@ def main(run: Run):
         "WF g: ancestors/children delivered by dag.py are the transitive closures in topological order (C15); recomputed by wf_b on every graph of the tie",
         "F_mix: node functions of per-individual nodes act row by row (C07); only used for histories containing a partial revert",
         "Disciplined: partial reverts only while every doubly cached node of the forked sub-graph carries the individual axis (documented precondition)",
-        f"model flag clear_fork_on_unforked_set = {FX} (the code as it is)" if not FX else "model flag clear_fork_on_unforked_set = True (repaired code)",
+        "State.__setitem__ drops _last_fork on an assignment made with auto_fork_type=None (model flag fx = true, State/StateNow.v): "
+        + ("recognised on the tree under test (source shape + probes)" if FX == CLAIMED_FX else
+           "NOT the case on the tree under test — tie made against fx = false, the theorems do not apply"),
     ]
     run.trusted += ["harness/props/state_toy.py: toy-graph builder, executor and canonicalisation of results (exact integers / inf / nan)",
                     "torch element-wise kernels, index_put, deepcopy (modelled, not verified)"]
@@ -297,6 +374,8 @@ def replay(run: Run, path: str):
     if "graph" not in inp:
         print("replay: no toy history recorded in this file (broken obligation or shipped-model history); re-running the check")
         return main(run)
+    fx = settle_variant(run)
+    print(f"State.__setitem__ of this tree: {run.extra['setitem_variant']}")
     G = T.ToyGraph.from_json(inp["graph"])
     G.build()
     s = T.run_ops(G, inp["ops"], fx=FX)
@@ -306,6 +385,8 @@ def replay(run: Run, path: str):
     for m in bad[:3]:
         print(f"STALE after step {m['step']}: state {m['state']} node {m['node']}: read {m['observed']} but a fresh state gives {m['expected']}")
     r = run.vm_bad_indices("replay", HEADER, CASE_TYPE, [s.coq_case()], f"(check_case {'true' if FX else 'false'})")
-    print("model agrees with the implementation on this history:", r == [])
-    print("REPLAY", "FAILS" if (bad or r) else "passes")
-    return 1 if (bad or r) else 0
+    print(f"model (fx = {'true' if FX else 'false'}) agrees with the implementation on this history:", r == [])
+    if fx != CLAIMED_FX:
+        print("the theorems of Props/C01.v are about fx = true: they do not speak about this tree")
+    print("REPLAY", "FAILS" if (bad or r or fx != CLAIMED_FX) else "passes")
+    return 1 if (bad or r or fx != CLAIMED_FX) else 0
